@@ -229,6 +229,25 @@ def check(case, ctx):
                             if st != 'ok' or not lib.close(got, sum(expc) / len(expc), 1e-12):
                                 ctx.fail('percent_coverage-mod', sum(expc) / len(expc), got,
                                          call=['percent_coverage', ts, [qs], ig])
+                        # one parsed target object reused for a history of queries (search with and without modifications,
+                        # coverage, percent coverage, containment): every answer equals the answer for the text
+                        if qtag in (1, 12):
+                            tobj = p.parse(ts)
+                            hist = [('percent_coverage', lambda: p.percent_coverage(tobj, [qs], ignore_mods=True),
+                                     lambda: sum(cover(T, [Q], False, True)) / n),
+                                    ('find', lambda: sorted(p.find_subsequence_indices(tobj, qs, False)), lambda: occurs(T, Q, False)),
+                                    ('coverage', lambda: list(p.coverage(tobj, [qs], True, True)), lambda: cover(T, [Q], True, True)),
+                                    ('is_subsequence', lambda: p.is_subsequence(qs, tobj, True), lambda: len(occurs(T, Q, False)) > 0),
+                                    ('find-ignore', lambda: sorted(p.find_subsequence_indices(tobj, qs, True)), lambda: occurs(T, Q, True)),
+                                    ('coverage-strict', lambda: list(p.coverage(tobj, [qs], False, False)), lambda: cover(T, [Q], False, False))]
+                            for name, fn, ref in hist:
+                                st, got = lib.call(fn)
+                                ctx.evals += 1
+                                e = ref()
+                                if st != 'ok' or (not lib.close(got, e, 1e-12) if isinstance(e, float) else got != e):
+                                    ctx.fail('reused-target-object', e, got, step=name, target=ts, query=qs,
+                                             note='history on one parsed target: ' + ', '.join(h[0] for h in hist))
+                                    break
                         # two listed peptides with the same residues and different modifications, given as strings,
                         # as annotation objects, and mixed (the documentation recommends passing parsed objects)
                         if qtag in (1, 12):
